@@ -52,6 +52,35 @@ inline void event(const char* name, const char* fmt = nullptr, ...)
     std::fputs("}\n", f);
     std::fflush(f);
 }
+/* Operand identities for operator events: setup() registers the four work vectors of every level under the id
+ * 4 * level + role (0 solution, 1 rhs, 2 residual, 3 error_correction); any other vector has id -1. */
+struct VecRegistry {
+    const void* data[64];
+    int id[64];
+    int n = 0;
+};
+inline VecRegistry& registry()
+{
+    static VecRegistry r;
+    return r;
+}
+inline void reg_vec(const void* data, int id)
+{
+    VecRegistry& r = registry();
+    if (data != nullptr && r.n < 64) {
+        r.data[r.n] = data;
+        r.id[r.n]   = id;
+        r.n++;
+    }
+}
+inline int vec_id(const void* data)
+{
+    const VecRegistry& r = registry();
+    for (int i = r.n - 1; i >= 0; i--)
+        if (r.data[i] == data)
+            return r.id[i];
+    return -1;
+}
 /* Access recording for the OpenMP regions: a harness installs a recorder; every hooked element access,
  * raw-pointer range and work-sharing loop iteration is reported to it. All calls are made by the executing thread. */
 struct AccessRecorder {
@@ -87,7 +116,24 @@ inline AccessRecorder*& recorder()
             gmgpolar_verif::event(__VA_ARGS__);                                                                        \
     } while (0)
 #define VERIF_DBL(x) gmgpolar_verif::dbl(x).c_str()
+/* One operator application, emitted when it has returned: name, level argument, ids of up to three operand vectors */
+#define VERIF_VID(v) gmgpolar_verif::vec_id((const void*)(v).begin())
+#define VERIF_OP1(name, level, a) VERIF_EV("Op", "\"op\":\"%s\",\"l\":%d,\"a\":%d,\"b\":-2,\"c\":-2", name, (int)(level), VERIF_VID(a))
+#define VERIF_OP2(name, level, a, b)                                                                                   \
+    VERIF_EV("Op", "\"op\":\"%s\",\"l\":%d,\"a\":%d,\"b\":%d,\"c\":-2", name, (int)(level), VERIF_VID(a), VERIF_VID(b))
+#define VERIF_OP3(name, level, a, b, c)                                                                                \
+    VERIF_EV("Op", "\"op\":\"%s\",\"l\":%d,\"a\":%d,\"b\":%d,\"c\":%d", name, (int)(level), VERIF_VID(a), VERIF_VID(b),      \
+             VERIF_VID(c))
 #else
+#define VERIF_OP1(name, level, a)                                                                                      \
+    do {                                                                                                               \
+    } while (0)
+#define VERIF_OP2(name, level, a, b)                                                                                   \
+    do {                                                                                                               \
+    } while (0)
+#define VERIF_OP3(name, level, a, b, c)                                                                                \
+    do {                                                                                                               \
+    } while (0)
 #define VERIF_EV(...)                                                                                                  \
     do {                                                                                                               \
     } while (0)
